@@ -83,6 +83,7 @@
         static inline bool reserve( InputTuple &my_input, OutputTuple &out) {
             if ( !std::get<N-1>( my_input ).reserve( std::get<N-1>( out ) ) ) return false;
             if ( !join_helper<N-1>::reserve( my_input, out ) ) {
+                __TBB_VERIF_POINT(vp_fg_join_reserve_fail, &my_input, N);
                 release_my_reservation( my_input );
                 return false;
             }
@@ -1372,6 +1373,7 @@
                                         tuple_accepted();
                                     }
                                     else {
+                                        __TBB_VERIF_POINT(vp_fg_join_reserve_fail, this, 0);
                                         tuple_rejected();
                                         build_succeeded = false;
                                     }
